@@ -374,8 +374,13 @@ def fam_sync():
                               'row symbolic'))
 
 
-def fam_sync_faults():
-    """start-up synchronisation hit by a database fault at any of its
+def fam_sync_faults(entry='parts'):
+    """entry='parts': the two synchronisation functions called one after the
+    other (each judged on its own); entry='deploy': the service's real
+    start-up function placement.deploy.update_database, which stops at the
+    first failure and is called again by the next start-up attempt.
+
+    start-up synchronisation hit by a database fault at any of its
     statements, followed by the next start-up synchronisation of the same
     process (flags are NOT reset in between): a sync that returns normally
     has done its work exactly once; one that failed changed nothing; and the
@@ -401,11 +406,15 @@ def fam_sync_faults():
                 *[x.present for x in rows]))),
                 'trait %s missing %s' % (n, when), sig=when)
 
+    class _Conf:
+        class placement_database:
+            sync_on_startup = False     # schema migrations are not the subject
+
     def path(ctx):
         app.setup()
         import os_traits
         import os_resource_classes as orc
-        from placement import db_api
+        from placement import db_api, deploy
         real_get, real_std = os_traits.get_traits, orc.STANDARDS
         os_traits.get_traits = lambda *a, **k: list(STD_TRAITS)
         orc.STANDARDS = list(STD_RCS)
@@ -424,24 +433,34 @@ def fam_sync_faults():
                 rc_obj._RESOURCE_CLASSES_SYNCED = False
                 pre = w.dump()
                 hook, un = inject.install_faults(
-                    w, kinds=('deadlock', 'deadlock+rollback', 'dberror'))
+                    w, kinds=('deadlock', 'deadlock+rollback', 'dberror',
+                              'commit-deadlock', 'commit-dberror'))
                 failed = []
+                aborted = False
                 try:
-                    for what, fn in (('traits', trait_obj.ensure_sync),
-                                     ('classes', rc_obj.ensure_sync)):
+                    if entry == 'deploy':
                         try:
-                            fn(db_api.DbContext())
+                            deploy.update_database(_Conf)
                         except symex.EngineSignal:
                             raise
-                        except Exception as e:
-                            failed.append(what)
+                        except Exception:
+                            aborted = True
+                    else:
+                        for what, fn in (('traits', trait_obj.ensure_sync),
+                                         ('classes', rc_obj.ensure_sync)):
+                            try:
+                                fn(db_api.DbContext())
+                            except symex.EngineSignal:
+                                raise
+                            except Exception as e:
+                                failed.append(what)
                 finally:
                     un()
                 mid = w.dump()
                 if not hook.injected:
                     return finish(ctx, 'no-fault')
                 kind = '%s@%s' % (hook.injected[0][1], hook.injected[0][2])
-                if not failed:
+                if not failed and not aborted:
                     check_all_present(ctx, mid, 'after a sync that returned '
                                       'normally (%s)' % kind.split('@')[0])
                 for what in failed:
@@ -450,25 +469,31 @@ def fam_sync_faults():
                         rel_diff(pre, mid, (t,))),
                         'sync of %s failed but changed the table' % what)
                 # the next start-up synchronisation of the same process
-                for fn in (trait_obj.ensure_sync, rc_obj.ensure_sync):
-                    fn(db_api.DbContext())
+                if entry == 'deploy':
+                    deploy.update_database(_Conf)
+                else:
+                    for fn in (trait_obj.ensure_sync, rc_obj.ensure_sync):
+                        fn(db_api.DbContext())
                 after = w.dump()
                 check_all_present(ctx, after, 'after the following start-up '
                                   'synchronisation')
                 return finish(ctx, 'fault:%s:%s' % (
-                    kind.split('@')[0], 'failed' if failed else 'ok'))
+                    kind.split('@')[0],
+                    'failed' if failed or aborted else 'ok'))
         finally:
             os_traits.get_traits, orc.STANDARDS = real_get, real_std
             trait_obj._TRAITS_SYNCED = True
             rc_obj._RESOURCE_CLASSES_SYNCED = True
-    return Family('startup-sync-faults', path, bounds=dict(
+    return Family('startup-sync-faults' + (
+        '' if entry == 'parts' else '/update_database'), path, bounds=dict(
         standard_traits=3, standard_classes=3, faults='one fault (deadlock, '
         'deadlock after rollback, generic error) at any statement of the '
         'first synchronisation', presence='every row symbolic'))
 
 
 def families(tier):
-    return [fam_names(), fam_sync_faults(), fam_hostile_names(), fam_rc_create('POST'), fam_rc_create('PUT'),
+    return [fam_names(), fam_sync_faults(), fam_sync_faults('deploy'),
+            fam_hostile_names(), fam_rc_create('POST'), fam_rc_create('PUT'),
             fam_std_immutable(), fam_sync()]
 
 
